@@ -74,6 +74,8 @@ class PipeScenario(Scenario):
             return b
         if name == "flatten2":       # two pieces per element: (x, 'a') then (x, 'b')
             return up.map(lambda x: ((x, "a"), (x, "b"))).flatten()
+        if name == "flatten3":       # three pieces per element: an earlier piece's consumer may finish after the last two
+            return up.map(lambda x: ((x, "a"), (x, "b"), (x, "c"))).flatten()
         if name == "accumulate_nostart":    # first element takes the "state is no_default" branch
             return up.accumulate(lambda s, x: x)
         if name == "pluck":
